@@ -18,6 +18,7 @@ META = {
 
 
 def rep_of(a, base, bits):
+    bits = min(bits, 64)
     return z3.If(a == 0, BV(0, 64), zext(z3.Extract(bits - 1, 0, a - base), 64))
 
 
@@ -29,8 +30,9 @@ def sbx_cell(ctx, p, addr, nbytes):
     return z3.Concat(*[z3.Select(p.mem, addr + BV(i, 64)) for i in reversed(range(nbytes))]) if nbytes > 1 else z3.Select(p.mem, addr)
 
 
-def check_single(ctx, k, log):
-    pb = log // 8
+def check_single(ctx, k, log, pb=None):
+    pb = pb or log // 8
+    rbits = 8 * pb
     base = ctx.sandbox_base(log)
     size = 1 << log
     b0 = 0x300000000 if log == 32 else 0x300000000 + (6 << log)
@@ -57,7 +59,7 @@ def check_single(ctx, k, log):
         vec = [[b0, x] for x in (0, 1, size - 1, 0x1234 % size)]
     elif k in ("k_sbx_ctx", "k_conv_to_sbx_ctx"):
         a = S("addr", ptrc)
-        obl = lambda q: ("address -> representation: null -> 0, else addr-base", zext(z3.Extract(log - 1, 0, q.ret), 64) == rep_of(a, base, log))
+        obl = lambda q: ("address -> representation: null -> 0, else addr-base", zext(z3.Extract(rbits - 1, 0, q.ret), 64) == rep_of(a, base, rbits))
         vec = [[b0, x] for x in (0, b0 + 1, b0 + size - 1, b0 + 0x1234 % size)]
     elif k in ("k_unsbx_noctx", "k_conv_to_app_ex"):
         r = S("rep", repc)
@@ -67,7 +69,7 @@ def check_single(ctx, k, log):
     elif k in ("k_sbx_noctx", "k_conv_to_sbx_ex"):
         a = S("addr", ptrc)
         ex = S("ex", inreg)
-        obl = lambda q: ("context-free address -> representation", zext(z3.Extract(log - 1, 0, q.ret), 64) == rep_of(a, base, log))
+        obl = lambda q: ("context-free address -> representation", zext(z3.Extract(rbits - 1, 0, q.ret), 64) == rep_of(a, base, rbits))
         vec = [[b0, x, b0 + 0x10] for x in (0, b0 + 1, b0 + size - 1)]
     elif k == "k_roundtrip_addr":
         a = S("addr", ptrc)
@@ -75,7 +77,7 @@ def check_single(ctx, k, log):
         vec = [[b0, x] for x in (0, b0 + 1, b0 + size - 1)]
     elif k == "k_roundtrip_rep":
         r = S("rep", repc)
-        obl = lambda q: ("sandbox(unsandbox(r)) == r", zext(z3.Extract(log - 1, 0, q.ret), 64) == r)
+        obl = lambda q: ("sandbox(unsandbox(r)) == r", zext(z3.Extract(rbits - 1, 0, q.ret), 64) == r)
         vec = [[b0, x] for x in (0, 1, size - 1)]
     elif k == "k_conv_arr_to_app":
         rs = [S("r%d" % i, repc) for i in range(3)]
@@ -83,12 +85,12 @@ def check_single(ctx, k, log):
         vec = [[b0, 0, 1, size - 1], [b0, 5, 0, 7]]
     elif k == "k_conv_arr_to_sbx":
         as_ = [S("a%d" % i, ptrc) for i in range(3)]
-        obl = lambda q: ("every element of an array of pointers converted", z3.And(*[q.user["log"][0][1 + i] == rep_of(as_[i], base, log) for i in range(3)]))
+        obl = lambda q: ("every element of an array of pointers converted", z3.And(*[q.user["log"][0][1 + i] == rep_of(as_[i], base, rbits) for i in range(3)]))
         vec = [[b0, 0, b0 + 1, b0 + size - 1], [b0, b0 + 5, 0, b0 + 7]]
     elif k == "k_store_ptr":
         c = S("cell", cellc(pb))
         v = S("v", ptrc)
-        obl = lambda q: ("stored cell holds the representation of the pointer", zext(sbx_cell(ctx, q, c, pb), 64) == rep_of(v, base, log))
+        obl = lambda q: ("stored cell holds the representation of the pointer", zext(sbx_cell(ctx, q, c, pb), 64) == rep_of(v, base, rbits))
         vec = [[b0, b0 + 0x40, x] for x in (0, b0 + 1, b0 + size - 1)]
     elif k == "k_store_null":
         c = S("cell", cellc(pb))
@@ -97,6 +99,7 @@ def check_single(ctx, k, log):
     elif k == "k_load_ptr":
         c = S("cell", cellc(pb))
         raw = zext(z3.Concat(*[z3.Select(mem0, c + BV(i, 64)) for i in reversed(range(pb))]), 64)
+        ctx.assume(z3.ULT(raw, BV(size, 64)))
         obl = lambda q: ("loaded pointer is the translation of the cell content", q.ret == addr_of(raw, base))
         vec = [[b0, b0 + 0x40]]
         mem = {b0 + 0x40 + i: 0x21 + i for i in range(8)}
@@ -111,11 +114,12 @@ def check_single(ctx, k, log):
         c = S("cell", cellc(3 * pb))
         as_ = [S("a%d" % i, ptrc) for i in range(3)]
         obl = lambda q: ("each element of a stored pointer array holds its representation",
-                         z3.And(*[zext(sbx_cell(ctx, q, c + BV(i * pb, 64), pb), 64) == rep_of(as_[i], base, log) for i in range(3)]))
+                         z3.And(*[zext(sbx_cell(ctx, q, c + BV(i * pb, 64), pb), 64) == rep_of(as_[i], base, rbits) for i in range(3)]))
         vec = [[b0, b0 + 0x40, 0, b0 + 1, b0 + size - 1]]
     elif k == "k_load_ptr_arr":
         c = S("cell", cellc(3 * pb))
         raws = [zext(z3.Concat(*[z3.Select(mem0, c + BV(i * pb + j, 64)) for j in reversed(range(pb))]), 64) for i in range(3)]
+        ctx.assume(*[z3.ULT(r_, BV(size, 64)) for r_ in raws])
         obl = lambda q: ("each element of a loaded pointer array is translated", z3.And(*[q.user["log"][0][1 + i] == addr_of(raws[i], base) for i in range(3)]))
         vec = [[b0, b0 + 0x40]]
         mem = {b0 + 0x40 + i: (0x11 * i) & 0xFF for i in range(12)}
@@ -129,7 +133,7 @@ def check_single(ctx, k, log):
         args.append(cc)
         boff = 4
         obl = lambda q: ("struct pointer field stored as its representation, neighbours hold their own fields",
-                         z3.And(zext(sbx_cell(ctx, q, p_ + BV(boff, 64), pb), 64) == rep_of(b, base, log),
+                         z3.And(zext(sbx_cell(ctx, q, p_ + BV(boff, 64), pb), 64) == rep_of(b, base, rbits),
                                 sbx_cell(ctx, q, p_, 4) == z3.Extract(31, 0, a),
                                 sbx_cell(ctx, q, p_ + BV(8, 64), 4) == cc))
         vec = [[b0, b0 + 0x40, 5, b0 + 0x1000, 7], [b0, b0 + 0x40, 0xFFFFFFFFFFFFFFFF, 0, 0xFFFFFFFF]]
@@ -144,18 +148,19 @@ def check_single(ctx, k, log):
         p_ = S("p", ptrc)
         obl = lambda q: ("backend free receives the representation of the pointer",
                          z3.And(len([e for e in q.user["log"] if e[0] == 0x102]) == 1,
-                                [e for e in q.user["log"] if e[0] == 0x102][0][1] == rep_of(p_, base, log)))
+                                [e for e in q.user["log"] if e[0] == 0x102][0][1] == rep_of(p_, base, rbits)))
         vec = [[b0, 0], [b0, b0 + 0x40]]
     elif k == "k_free_vol":
         c = S("cell", cellc(pb))
         raw = zext(z3.Concat(*[z3.Select(mem0, c + BV(i, 64)) for i in reversed(range(pb))]), 64)
+        ctx.assume(z3.ULT(raw, BV(size, 64)))
         obl = lambda q: ("free through a sandbox-resident pointer passes the stored representation",
                          [e for e in q.user["log"] if e[0] == 0x102][0][1] == raw)
         vec = [[b0, b0 + 0x40]]
         mem = {b0 + 0x40 + i: 0x41 + i for i in range(8)}
     else:
         raise Inconclusive("no spec for " + k)
-    if log == 16 and k in ("k_store_struct", "k_load_struct"):
+    if (log == 16 or pb == 8) and k in ("k_store_struct", "k_load_struct"):
         raise Inconclusive("struct layout differs on B16; kernel not scheduled")
     paths = ctx.run(k, args)
     for q in paths:
@@ -286,12 +291,12 @@ def check_bm_same(ctx):
 
 def jobs(tier, seed):
     out = []
-    backends = [("B32", 32)] + ([("B16", 16)] if tier == "thorough" else [])
-    for sbx, log in backends:
-        names = [k for k in SINGLE if not (log == 16 and k in ("k_store_struct", "k_load_struct"))]
+    backends = [("B32", 32, 4), ("B64", 32, 8)] + ([("B16", 16, 2)] if tier == "thorough" else [])
+    for sbx, log, pb in backends:
+        names = [k for k in SINGLE if not (sbx != "B32" and k in ("k_store_struct", "k_load_struct"))]
         for gi, grp in enumerate(C.chunks(names, 6)):
             src = '#include "verif_sandbox.hpp"\nusing S = %s;\n#include "C04_kernels.inc"\n' % sbx
-            out.append(Job("C04_%s_%d" % (sbx, gi), src, [dict(name="%s %s" % (sbx, k), fn=check_single, kw=dict(k=k, log=log)) for k in grp]))
+            out.append(Job("C04_%s_%d" % (sbx, gi), src, [dict(name="%s %s" % (sbx, k), fn=check_single, kw=dict(k=k, log=log, pb=pb)) for k in grp]))
     src = '#include "C04_bm.inc"\n'
     for k in ("k_bm_store_load", "k_bm_load", "k_bm_store_null_load"):
         out.append(Job("C04_BM_" + k, src, [dict(name="BM " + k, fn=check_bm, kw=dict(k=k))], unwind=200))
